@@ -1,0 +1,5 @@
+// +build !verif
+
+package stackinit
+
+const verifNoTap = false
